@@ -53,9 +53,9 @@ var c18PertWeights = func() []int {
 }()
 
 func init() {
-	register(&core.Profile{Name: "c18-eth-tree", Property: "C18", Weight: 700, Run: func(c *core.Ctx) { runC18Tree(c, false) },
+	register(&core.Profile{Name: "c18-eth-tree", Property: "C18", Weight: 350, Run: func(c *core.Ctx) { runC18Tree(c, false) },
 		Doc: "one host SimApp chain with an ETH client (seal hook on) fed from a seeded header tree grown from mainnet header 13286181: competing branches interleaved, reorganisations up to depth 8, returns to abandoned branches, field perturbations, duplicates, host clock advances"})
-	register(&core.Profile{Name: "c18-eth-tree-crash", Property: "C18", Weight: 300, Fault: true, Run: func(c *core.Ctx) { runC18Tree(c, true) },
+	register(&core.Profile{Name: "c18-eth-tree-crash", Property: "C18", Weight: 150, Fault: true, Run: func(c *core.Ctx) { runC18Tree(c, true) },
 		Doc: "same with crash/restart of the host chain before, inside and after update blocks"})
 	register(&core.Profile{Name: "c18-eth-mainnet-seal", Property: "C18", Weight: 1, Run: runC18Mainnet,
 		Doc: "seal hook OFF: recorded mainnet headers 13286181.. fed in order through the real ethash verification, interleaved with single-bit corruptions of nonce / mix digest and pre-seal perturbations (about 2 s CPU per seal check, hence the tiny weight)"})
@@ -108,7 +108,7 @@ type c18Run struct {
 	chain *eth.Chain
 	m     *eth.Model
 
-	tip        common.Hash // hash of ClientState.Header as last observed
+	tip        common.Hash     // hash of ClientState.Header as last observed
 	revHeights map[uint64]bool // numbers at which the client took a header under a non-zero height revision
 	stop       bool            // the client's store is damaged by an already reported defect: end the run
 	everMain   map[common.Hash]bool
@@ -116,7 +116,6 @@ type c18Run struct {
 	forks      int
 	refused    int
 	forceCtx   string // overrides the rejected-valid context (mainnet profile)
-	sealChecks int
 }
 
 func c18Short(h common.Hash) string { return h.Hex()[2:10] }
@@ -356,8 +355,17 @@ func (r *c18Run) checkChain(when string) {
 		}
 	}
 	chain, linked := r.m.Ancestry(th, r.m.Start)
+	if th != r.tip {
+		r.tip = th
+		for _, hd := range chain {
+			r.everMain[hd.Hash()] = true
+		}
+	}
 	if !linked {
-		c.Failf("model: stored headers do not link %s down to the initial height", c18Short(th))
+		// only reachable after the client accepted a header whose parent it does not have
+		c.Violate("C18/single-chain/broken-parent-link", "%s: the headers the client stored do not link its latest header %d/%s down to its initial height %d",
+			when, T.Number.Uint64(), c18Short(th), r.m.Start)
+		return
 	}
 	tipNo := T.Number.Uint64()
 	for _, hd := range chain {
@@ -401,12 +409,6 @@ func (r *c18Run) checkChain(when string) {
 				"%s: latest header is %d/%s; walking parent links down to height %d gives %s (root %x… time %d) but the exposed consensus state has root %x… time %d number %s, which is %s",
 				when, tipNo, c18Short(th), h, c18Short(hd.Hash()), hd.Root[:6], hd.Time, cons.Root[:min(6, len(cons.Root))], cons.Timestamp, cons.Number, other)
 			return
-		}
-	}
-	if th != r.tip {
-		r.tip = th
-		for _, hd := range chain {
-			r.everMain[hd.Hash()] = true
 		}
 	}
 }
